@@ -4,7 +4,7 @@ Case = (kind of input value, what the body does to it, initial value, worker, ra
 python tasks over list / dict / set / plain object / numpy array / nested containers / two list fields / file inputs
 (copy modes `any` and `copy`), whose body — selected by the INPUT `mode` — leaves the value alone, changes it in
 place, rebinds a local name, or changes it and restores it; plus shell tasks that append to their file argument under
-each copy mode (the only place where staging is in effect, see D60).
+each copy mode (the only place where staging is in effect, see D63).
 
   implementation observable  exception class raised by `Submitter.__call__`, whether the submitter logged an ERROR
                              record, the field names listed by the RuntimeError, whether the one result directory in the
@@ -15,7 +15,7 @@ each copy mode (the only place where staging is in effect, see D60).
   spec oracle (independent)  from the pool definition alone: an in-place change must be reported (exception or ERROR log
                              record), the result directory must carry the original checksum, and with copy mode `copy` the
                              original file must be untouched
-  D60 match rule             python task, file-set field with copy_mode=copy, body writes to the path it received
+  D63 match rule             python task, file-set field with copy_mode=copy, body writes to the path it received
 """
 
 from __future__ import annotations
@@ -47,7 +47,7 @@ META = {
     "original inputs whatever the body did (C19_memo_needed: this rests on the Job._checksum memo); C19_value_changed — "
     "collision-extraction form (no injectivity assumed); C19_reported — through Submitter.__call__ a detected change reaches "
     "the caller as the raised RuntimeError or as the submitter's ERROR log record; C19_copy_mode / C19_link_modes — staging with "
-    "mode copy isolates the original, the other modes expose it; C19_witness_python_copy (D60) — python tasks never see the staged "
+    "mode copy isolates the original, the other modes expose it; C19_witness_python_copy (D63) — python tasks never see the staged "
     "copy.  Tied to pydra/engine/job.py, compose/base/task.py, compose/python.py, engine/submitter.py by running the pool. C19_skeleton (decide over the regenerated skeleton of Job.run / run_async): the check is performed once on the normal path, after the body, after the result is saved and after the job lock is released.",
     "note": "Trusted: Lean kernel; hand-written model HashCheck.lean; the real hash_function enters as the parameter `hash` "
     "(its own properties are C08's subject); fileformats' FileSet.copy honours the requested mode (C34); the harness-side "
@@ -498,13 +498,13 @@ def run_cases(ctx, cases):
             model,
             ok,
             nontrivial=c["mode"] in ("mutate", "restore") or c["worker"] == "cf",
-            defect="D60" if is_d60(c) else None,
+            defect="D63" if is_d60(c) else None,
             what=why or "hash check after the body",
         )
     return impls
 
 
-D60_WITNESS = {"kind": "filecopy", "value": "hello", "mode": "mutate", "worker": "debug", "raise_errors": None}
+D63_WITNESS = {"kind": "filecopy", "value": "hello", "mode": "mutate", "worker": "debug", "raise_errors": None}
 
 CORPUS = [
     {"kind": "list", "value": [1, 2, 3], "mode": "mutate", "worker": "debug", "raise_errors": None},
@@ -522,18 +522,18 @@ CORPUS = [
 
 def correspondence(ctx):
     core.assert_repo_loaded()
-    # known finding D60 first (its witness is case 0)
-    cases = [D60_WITNESS] + CORPUS
+    # known finding D63 first (its witness is case 0)
+    cases = [D63_WITNESS] + CORPUS
     cases += [gen_case(ctx.rng, "debug") for _ in range(ctx.pick(50, 600))]
     cases += [gen_case(ctx.rng, "cf") for _ in range(ctx.pick(3, 30))]
     impls = run_cases(ctx, cases)
     obs = impls[0][0]
-    if any(f["id"] == "D60" for f in ctx.known()):
-        ctx.finding("D60", obs["orig_changed"] is True, f"python task, copy_mode=copy, body appends to its file argument -> {obs}")
+    if any(f["id"] == "D63" for f in ctx.known()):
+        ctx.finding("D63", obs["orig_changed"] is True, f"python task, copy_mode=copy, body appends to its file argument -> {obs}")
 
 
 def search(ctx):
-    run_cases(ctx, [D60_WITNESS] + CORPUS + [gen_case(ctx.rng, "debug") for _ in range(ctx.pick(200, 1500))])
+    run_cases(ctx, [D63_WITNESS] + CORPUS + [gen_case(ctx.rng, "debug") for _ in range(ctx.pick(200, 1500))])
 
 
 def replay(ctx, rec):
